@@ -897,7 +897,13 @@ def search_states(run: Run, T, thorough: bool):
         rng = run.rng("state", kind, nf, sd)
         for r in range(rounds):
             style = styles[r % len(styles)]
-            cohort = dict(n_ind=5 if r % 3 else 3, seed=3 + (r % 2), missing=0.1)
+            # cohort sizes include ONE and two individuals (the property speaks of every state); a joint cohort needs an observed
+            # and a censored event, so the joint kind keeps >= 3 individuals
+            n_ind = [3, 5, 1, 5, 2, 5, 1][r % 7]
+            if kind == "joint" and n_ind < 3:
+                n_ind = 3
+            cohort = dict(n_ind=n_ind, seed=3 + (r % 2), missing=0.1)
+            run.count("cohort_size", str(n_ind))
             try:
                 m, ds, st = base_state(kind, nf, sd, **cohort)
             except Exception as e:
